@@ -682,17 +682,27 @@ def _stratum(c):
 
 
 def _stratified(cases, per):
-    """`per` cases taken round-robin over the strata (in the shuffled order within each)"""
-    groups = {}
+    """`per` cases taken round-robin over the case kinds and, within a kind, round-robin over its strata (kinds and
+    strata in the order of their first appearance in the shuffled list, cases in the shuffled order within each)"""
+    kinds = {}
     for c in cases:
-        groups.setdefault(_stratum(c), []).append(c)
-    out, k = [], 0
-    keys = sorted(groups)
-    while len(out) < per and any(groups.values()):
-        g = groups[keys[k % len(keys)]]
-        if g:
-            out.append(g.pop(0))
+        kd = c.get("kind", "?") if isinstance(c, dict) else "?"
+        kinds.setdefault(kd, {}).setdefault(_stratum(c), []).append(c)
+    state = {kd: [list(g.keys()), 0] for kd, g in kinds.items()}
+    out, order, k = [], list(kinds), 0
+    left = sum(len(v) for g in kinds.values() for v in g.values())
+    while len(out) < per and left:
+        kd = order[k % len(order)]
         k += 1
+        keys, pos = state[kd]
+        for _ in range(len(keys)):            # next non-empty stratum of this kind
+            g = kinds[kd][keys[pos % len(keys)]]
+            pos += 1
+            if g:
+                out.append(g.pop(0))
+                left -= 1
+                break
+        state[kd][1] = pos
     return out
 
 
